@@ -1,10 +1,55 @@
 package props
 
 import (
+	"fmt"
+	"github.com/vedadiyan/genql"
 	"github.com/vedadiyan/genql/vrt"
 	"verif/harness/explore"
+	"verif/harness/gq"
 )
 
 func newExplorer(run func(prefix []int32) *vrt.Result, check func(prefix []int32, r *vrt.Result) bool, maxExecs int64) *explore.Explorer {
 	return &explore.Explorer{Run: run, Check: check, MaxExecs: maxExecs}
+}
+
+// execMutateExec builds one Query, executes it, lets the caller change the input in place (the values
+// of rows, the variables, the constants, a top-level key ...), executes the same Query again and
+// compares with a fresh query built after the change.  Returns the rendered second result, the
+// rendered fresh result and the first error / panic met ("" if none).
+func execMutateExec(doc map[string]any, sql string, opts []genql.QueryOption, mutate func()) (second, fresh, problem string) {
+	vrt.Run(gq.Seq, nil, func() {
+		defer func() {
+			if rec := recover(); rec != nil {
+				problem = fmt.Sprint("panic: ", rec)
+			}
+		}()
+		q, err := genql.New(doc, sql, opts...)
+		if err != nil {
+			problem = "New: " + err.Error()
+			return
+		}
+		if _, err := q.Exec(); err != nil {
+			problem = "first Exec: " + err.Error()
+			return
+		}
+		mutate()
+		rows2, err := q.Exec()
+		if err != nil {
+			problem = "second Exec: " + err.Error()
+			return
+		}
+		second = gq.Render(rows2)
+		f, err := genql.New(doc, sql, opts...)
+		if err != nil {
+			problem = "fresh New: " + err.Error()
+			return
+		}
+		rows3, err := f.Exec()
+		if err != nil {
+			problem = "fresh Exec: " + err.Error()
+			return
+		}
+		fresh = gq.Render(rows3)
+	})
+	return
 }
